@@ -5,6 +5,7 @@
 package main
 
 import (
+	"sync"
 	"bufio"
 	"encoding/hex"
 	"encoding/json"
@@ -112,22 +113,49 @@ func runCases(casesPath string, outPath string) {
 	defer out.Flush()
 	sc := bufio.NewScanner(in)
 	sc.Buffer(make([]byte, 1<<20), 1<<28)
+	lines := []string{}
 	for sc.Scan() {
-		f := strings.Split(sc.Text(), " ")
-		if len(f) < 2 {
-			continue
-		}
-		for len(f) < 3 {
-			f = append(f, "")
-		}
-		if rn, ok := runners[f[0]]; ok {
-			for len(f) < 8 {
-				f = append(f, "")
+		lines = append(lines, sc.Text())
+	}
+	// the runners are independent of each other (own scratch directories, read-only package tables):
+	// run them on a small pool and keep the output in input order
+	results := make([]string, len(lines))
+	workers := 8
+	if w, err := strconv.Atoi(os.Getenv("HARNESS_WORKERS")); err == nil && w > 0 {
+		workers = w
+	}
+	var wg sync.WaitGroup
+	next := make(chan int, 64)
+	for w := 0; w < workers; w++ {
+		wg.Add(1)
+		go func() {
+			defer wg.Done()
+			for i := range next {
+				f := strings.Split(lines[i], " ")
+				if len(f) < 2 {
+					continue
+				}
+				for len(f) < 3 {
+					f = append(f, "")
+				}
+				if rn, ok := runners[f[0]]; ok {
+					for len(f) < 8 {
+						f = append(f, "")
+					}
+					results[i] = fmt.Sprintf("%s %s %s\n", f[0], f[1], rn(f))
+				} else {
+					results[i] = fmt.Sprintf("unknown-case-kind %s\n", f[0])
+				}
 			}
-			fmt.Fprintf(out, "%s %s %s\n", f[0], f[1], rn(f))
-		} else {
-			fmt.Fprintf(out, "unknown-case-kind %s\n", f[0])
-		}
+		}()
+	}
+	for i := range lines {
+		next <- i
+	}
+	close(next)
+	wg.Wait()
+	for _, r := range results {
+		out.WriteString(r)
 	}
 }
 
